@@ -18,7 +18,7 @@ HArrUniq    == [type |-> "array", items |-> HInt, uniqueItems |-> TRUE]
 HArrStr     == [type |-> "array", items |-> HStr]
 HArrStrMin1 == [type |-> "array", items |-> HStrMin1]
 HArrBool    == [type |-> "array", items |-> HBool]
-HObj        == [type |-> "object", pk |-> <<"a", "b">>, ps |-> <<HInt, HIntMax>>, required |-> <<"a">>]
+HObj        == [type |-> "object", pk |-> <<"x", "y">>, ps |-> <<HInt, HIntMax>>, required |-> <<"x">>]
 
 (* compositions: the header decoders have a branch of their own for each keyword (no `type` at the top: the text is    *)
 (* read by the alternatives' types)                                                                                  *)
@@ -39,9 +39,9 @@ PlainTexts ==
      <<"1", ",", "a">>, <<"7", ",", "7">>, <<"1", ",", "2", ",", "3">>, <<"t", "r", "u", "e", ",", "f", "a", "l", "s", "e">>,
      <<"t", "r", "u", "e", ",">> }
 ObjTexts ==
-   { <<"a", "=", "1", ",", "b", "=", "2">>, <<"a", "=", "1", ",", "b", "=", "7">>, <<"b", "=", "2">>, <<"a", "=", "1">>,
-     <<"a", "=">>, <<"a", "=", "1", ",", "b", "=">>, <<"a", "=", "x">>,
-     <<"a", ",", "1", ",", "b", ",", "2">>, <<"a", ",", "1", ",", "b", ",", "7">>, <<"b", ",", "2">>, <<"a", ",", "1">>, <<"a", ",">> }
+   { <<"x", "=", "1", ",", "y", "=", "2">>, <<"x", "=", "1", ",", "y", "=", "7">>, <<"y", "=", "2">>, <<"x", "=", "1">>,
+     <<"x", "=">>, <<"x", "=", "1", ",", "y", "=">>, <<"x", "=", "a">>,
+     <<"x", ",", "1", ",", "y", ",", "2">>, <<"x", ",", "1", ",", "y", ",", "7">>, <<"y", ",", "2">>, <<"x", ",", "1">>, <<"x", ",">> }
 HTexts == PlainTexts \cup ObjTexts
 
 (* the Go parsers take more spellings of a boolean than true / false ("1", "0", "t", ...): left open, never generated *)
